@@ -1,6 +1,7 @@
 """F9 start/stop sibling agreement on the rerun queue (Zeroconf.retransmissions)."""
 from .lib import *
 
+SEARCH_MAP = {"Browse": "service_queriers", "ResolveHostname": "hostname_resolvers"}
 PURGE_METHODS = ("remove", "swap_remove", "retain", "retain_mut", "drain", "clear", "truncate")
 
 
@@ -208,6 +209,34 @@ def check_restart_replaces(ctx, P, start, variant, rule="F9"):
                     detail = "purge is not on every path to add_retransmission"
     ctx.ob(rule + ".F9.restart-replaces", "%s|%s" % (fn.name, variant), ok, fn.loc(adds[0][0]) if adds else fn.loc(),
            detail or "a fresh start purges earlier Command::%s reruns of the same name before scheduling" % variant)
+    # whenever the handler replaces the searcher in its map (insert), the replaced searcher's chain goes too: the purge
+    # is on every path through the insert — also on paths that schedule nothing themselves (cache-only browse)
+    mapfield = SEARCH_MAP.get(variant)
+    if mapfield and regions:
+        def inserts_into(g, depth=0):
+            out = []
+            for b, t in g.calls():
+                if "HashMap" in cname(t) and method(cname(t)) == "insert" and recv_mentions(P, g, b, t, mapfield, "Zeroconf"):
+                    out.append(b)
+                elif depth < 1:
+                    for tg in P.call_targets(t):
+                        k = P.fns.get(tg)
+                        if k is not None and k.name != g.name and not k.in_tests() and inserts_into(k, depth + 1):
+                            out.append(b)
+            return out
+        sites = inserts_into(fn)
+        bad = []
+        for sb in sites:
+            if sb in regions:
+                continue
+            before = not reachable_without(fn, sb, removed_blocks=regions)       # every path to the insert passed the purge
+            after = all_paths_to_return_pass(fn, sb, regions)
+            if not (before or after):
+                bad.append(fn.loc(sb))
+        ctx.ob(rule + ".F9.replace-purges", "%s|%s" % (fn.name, variant), bool(sites) and not bad, fn.loc(sites[0]) if sites else fn.loc(),
+               "every path that replaces the searcher in %s also purges the earlier Command::%s reruns" % (mapfield, variant) if sites and not bad else
+               "the searcher in %s is replaced at %s on a path that does not purge the earlier Command::%s reruns: the replaced search keeps "
+               "sending its queries" % (mapfield, bad or "?", variant))
     # the purge finds the earlier chain whatever the letter case: searches whose map is keyed by the lower-cased name
     # (hostname_resolvers) are replaced when the lower-cased names agree, so the purge must compare lower-cased names
     if variant in CASE_INSENSITIVE_SEARCHES:
